@@ -16,12 +16,15 @@ Proof.
   - cbn [to_dec_aux]. destruct (N.ltb n 10) eqn:E.
     + apply N.ltb_lt in E. cbn [fold_left]. unfold dstep at 2, digit_val.
       rewrite (N.mod_small n 10) by exact E.
-      replace (0 * 10 + (48 + n - 48))%N with n by lia. Show. reflexivity.
+      replace (0 * 10 + (48 + n - 48))%N with n by lia. reflexivity.
     + apply N.ltb_ge in E. rewrite IH.
-      * cbn [fold_left]. unfold dstep at 2, digit_val.
+      * cbn [fold_left].
+        change (dstep (n / 10) (48 + n mod 10)%N) with (n / 10 * 10 + (48 + n mod 10 - 48))%N.
         pose proof (N.div_mod n 10 ltac:(lia)) as Hdm.
         pose proof (N.mod_lt n 10 ltac:(lia)) as Hm.
-        replace (n / 10 * 10 + (48 + n mod 10 - 48))%N with n by lia. reflexivity.
+        assert (Hq : (n / 10 * 10 + (48 + n mod 10 - 48) = n)%N).
+        { revert Hdm Hm. generalize (n / 10)%N (n mod 10)%N. intros q r Hdm Hm. lia. }
+        rewrite Hq. reflexivity.
       * rewrite Nnat.Nat2N.inj_succ, N.pow_succ_r' in Hn.
         apply N.div_lt_upper_bound; [lia|].
         pose proof (N.pow_nonzero 2 (N.of_nat k) ltac:(lia)). lia.
@@ -34,6 +37,7 @@ Proof.
   cbn [to_dec_aux].
   assert (Hd : is_digit (48 + n mod 10)%N = true).
   { unfold is_digit. pose proof (N.mod_lt n 10 ltac:(lia)) as Hm.
+    revert Hm. generalize (n mod 10)%N. intros r Hm.
     apply andb_true_iff; split; apply N.leb_le; lia. }
   destruct (N.ltb n 10).
   - cbn [forallb]. now rewrite Hd, Hacc.
